@@ -213,6 +213,9 @@ impl<T> VersionChain<T> {
     @@VersionChain::mark_deleted@@
     @@VersionChain::remove_versions_by@@
 }
+impl<T: Clone> VersionChain<T> {
+    @@VersionChain::get_mut@@
+}
 
 } // verus!
 fn main() {}
@@ -323,7 +326,32 @@ def build(repo):
     f.R10('retain', '&Version<T>', lambda i: 'ensures /*@mvcc::VersionChain::remove_versions_by::closure#keeps_other_transactions*/ r == (v.info.created_by != tx),')
     f.ensures('whole_view', 'final(self).versions@ == old(self).versions@.filter(not_by::<T>(tx))', ['C02'])
     f.body_end('proof { assert(self.versions@ == old(self).versions@.filter(not_by::<T>(tx))); }')
-    u.not_covered += ['VersionChain::get_mut (position + generic Clone) -> Kani bounded harness only',
+
+    # ---- get_mut: copy-on-write -------------------------------------------------------------------------
+    f = u.method(MV, 'VersionChain', 'get_mut').D1().R14('visible_idx').ret('r').props('C01', 'C02')
+    f.ensures('invisible_changes_nothing', 'first_vis(infos(old(self).versions@), epoch, tx) < 0 ==> r is None && final(self).versions@ == old(self).versions@')
+    f.ensures('own_version_in_place', '''first_vis(infos(old(self).versions@), epoch, tx) >= 0 && old(self).versions@[first_vis(infos(old(self).versions@), epoch, tx)].info.created_by == tx ==> {
+                let k = first_vis(infos(old(self).versions@), epoch, tx);
+                &&& r is Some
+                &&& final(self).versions@.len() == old(self).versions@.len()
+                &&& final(self).versions@[k].info == old(self).versions@[k].info
+                &&& final(self).versions@[k].data == *final(r->0)
+                &&& forall|j: int| 0 <= j < old(self).versions@.len() && j != k ==> final(self).versions@[j] == #[trigger] old(self).versions@[j]
+            }''')
+    f.ensures('foreign_version_copied', '''first_vis(infos(old(self).versions@), epoch, tx) >= 0 && old(self).versions@[first_vis(infos(old(self).versions@), epoch, tx)].info.created_by != tx ==> {
+                &&& r is Some
+                &&& final(self).versions@.len() == old(self).versions@.len() + 1
+                &&& final(self).versions@[0].info.created_epoch == modify_epoch && final(self).versions@[0].info.created_by == tx && final(self).versions@[0].info.deleted_epoch is None
+                &&& final(self).versions@[0].data == *final(r->0)
+                &&& forall|j: int| 0 <= j < old(self).versions@.len() ==> final(self).versions@[j + 1] == #[trigger] old(self).versions@[j]
+            }''')
+    L = f.loop(0).kind('for')
+    L.invariants(('frame', 'self.versions@ == old(self).versions@'),
+                 ('found_is_first', 'match visible_idx__found { None => forall|j: int| 0 <= j < i__ ==> !vis_to(#[trigger] infos(self.versions@)[j], epoch, tx),'
+                                    ' Some(k) => k < i__ && vis_to(infos(self.versions@)[k as int], epoch, tx) && forall|j: int| 0 <= j < k ==> !vis_to(#[trigger] infos(self.versions@)[j], epoch, tx) }'))
+    L.body_start('proof { assert(infos(self.versions@)[i__ as int] == self.versions@[i__ as int].info); }')
+    L.after('proof { lemma_first_vis_char(infos(self.versions@), epoch, tx); }')
+    u.not_covered += [
                       'tiered-storage VersionIndex (feature off in the default build)']
     u.assume('A1 (stamping discipline, NOT checked): callers stamp a version with an epoch greater than the start epoch of every concurrently running reader until the writer commits; '
              'session.rs / LpgStore sit behind locks + hash maps and are outside both verifiers. Reading them shows the engine stamps in-transaction writes with the START epoch and never restamps, '
